@@ -115,3 +115,17 @@ Theorem order_blind_twin_axes_witness :
   top_eq New o0 (TField (f [c0; c1])) (TField (f [c0; c1])) = Some (Ok true) /\
   top_eq New o0 (TField (f [c0; c1])) (TField (f [c1; c0])) = Some (Ok false).
 Proof. vm_compute. split; reflexivity. Qed.
+
+(* ignore_type=True between classes is directional: the operand is converted to the class of
+   self, which drops the components that class has not got.  A cell measure with a measure and a
+   domain ancillary with the same properties and data: the domain ancillary equals the converted
+   cell measure, the cell measure does not equal the converted domain ancillary (it has no
+   measure). *)
+Definition o_it : opts := mkO (Some (0, 1)) (Some (0, 1)) false false IPNone true true.
+Theorem cross_class_asymmetry_witness :
+  let m := mkC CMeas (mkP [("standard_name", PStr "cell_area")] (Some (dat [3] [7; 8; 9])) false None)
+               None None None (Some "area") in
+  let d := mkC CDomAnc (mkP [("standard_name", PStr "cell_area")] (Some (dat [3] [7; 8; 9])) false None)
+               None None None None in
+  cons_eq New o_it d m = Some (Ok true) /\ cons_eq New o_it m d = Some (Ok false).
+Proof. vm_compute. split; reflexivity. Qed.
